@@ -190,11 +190,11 @@ META['C18'] = {
   'trusted_base': [KERNEL, EXTRACT, HARNESS, BLAKE,
                    'verif hooks: consensus/verif_hooks.go (leaf constructors), gateway/verif_hooks.go (RPC object codec wrappers)',
                    'forEachElementLeaf order and the proofless-prefix layout are re-derived in the harness (harness/c18.go mpLeaves, splitSetEncoding) and checked against the bytes'],
-  'assumptions': ['the theorem is per tree; the grouping of leaves into trees by proof length, the tree base (clearBits) and the leaf-count inference are executable model definitions tied by correspondence, not yet theorems',
+  'assumptions': ['forEachElementLeaf (which elements of which transactions are leaves, in which order) is re-derived in the harness and tied by correspondence',
                   'sort.Search on an index-sorted slice is modelled as the longest prefix with index < mid (equal on sorted input)',
                   'in-place writes into preallocated proofs are modelled as building the proof bottom-up (equal when the allocated length is the tree height, which the codec guarantees)',
                   'hash collisions appear as the Collision disjunct (outline completion); the multiproof theorem needs none'],
-  'level_text': 'Proved for every perfect tree of any height at any base and every non-empty index-sorted leaf list (duplicates allowed) whose proofs are sibling paths of that tree: computeMultiproof does not panic, yields exactly multiproofSize hashes, and expandMultiproof from the leaf hashes alone restores every individual proof bit-for-bit, recomputes the root and consumes exactly the multiproof. Proved for outlines over arbitrary transaction/hash types: the outline has the block\'s hashes whatever is omitted (same commitment and ID), Complete reports exactly omitted-and-not-offered, and any pool containing the omitted transactions (any order/extras) restores exactly the block, up to an exhibited hash collision. The implementation is tied by recomputing multiproofs, leaf counts, sizes, restored proofs and completion results on generated chains. Partial: cross-tree grouping and numLeaves inference are correspondence only.',
+  'level_text': 'Proved for every perfect tree of any height at any base and every non-empty index-sorted leaf list (duplicates allowed) whose proofs are sibling paths of that tree: computeMultiproof does not panic, yields exactly multiproofSize hashes, and expandMultiproof from the leaf hashes alone restores every individual proof bit-for-bit, recomputes the root and consumes exactly the multiproof. Proved for outlines over arbitrary transaction/hash types: the outline has the block\'s hashes whatever is omitted (same commitment and ID), Complete reports exactly omitted-and-not-offered, and any pool containing the omitted transactions (any order/extras) restores exactly the block, up to an exhibited hash collision. The implementation is tied by recomputing multiproofs, leaf counts, sizes, restored proofs and completion results on generated chains. Also proved: the whole codec core over all trees of one state at once (grouping by proof length, sorting, tree bases; leaves in any order, duplicates allowed): computeMultiproof does not panic, has exactly multiproofSize hashes, and expansion over leaves that agree with the originals only in index, leaf hash and proof length restores every proof; the restored proofs are exactly the ones that verify (proofRoot = root); the encoder\'s leaf-count inference lets the decoder accept every leaf and recover exactly its proof length. Remaining correspondence-only: the traversal order of elements inside transactions.',
 }
 
 META['C17'] = {
@@ -236,14 +236,14 @@ META['C20'] = {
            '(b) 30 (1200) random addresses: String/Parse round trip and, for each of the 76 positions, 2 (6) replacement characters (hex digits of both cases and non-hex): Go must reject or return the same address; renderings and a sample of the altered strings recomputed by the model (checksum through BLAKE2b); length / prefix corruptions; '
            '(c) 400 (20000) currencies (zero, max, small, powers of ten +-1, few significant digits, random widths): String(), ExactString() and JSON round trip; String()/ExactString() recomputed by the model; 20 mutated strings each (spaces, signs, doubled dots, wrong units, moved decimal points, sub-unit precision) whose ParseCurrency verdict and value are recomputed by the model; '
            '(d) JSON round trip (marshal, unmarshal, marshal again; binary encoding of the value read back equal) of every wire type with a JSON form plus Currency, Block, Network, the four element diffs, Usage, ProtocolVersion, HostSettings: 25 (800) reflection-filled values each (valid UTF-8, years 0-9999) incl. the zero value; '
-           '(e) 300 (10000) random policies through String/ParseSpendPolicy and JSON; specifiers incl. non-alphanumeric; public keys, chain indices, unlock keys, protocol versions, accounts with wrong prefix / length; '
+           '(e) 300 (10000) random policies through String/ParseSpendPolicy and JSON, their String() recomputed by the model and ~19 mutated strings each (spaces, doubled parentheses, dropped / inserted characters, upper case, signs, leading zeros, trailing commas) whose parse verdict and re-rendered result are recomputed by the model; specifiers incl. non-alphanumeric; public keys, chain indices, unlock keys, protocol versions, accounts with wrong prefix / length; '
            '(f) 6 (120) generated chains: every ApplyUpdate and RevertUpdate goes through JSON and must refresh the proof of every tracked element exactly as the original does'),
   'trusted_base': [KERNEL, EXTRACT, HARNESS, BLAKE,
                    'encoding/json, encoding/hex, strconv and math/big as used by the marshalers are exercised, not modelled; the model transcribes unmarshalHex, Address.String/UnmarshalText, Currency.String/ExactString/ParseCurrency'],
   'assumptions': ['ParseCurrency accepts more than the modelled grammar (exponents, fractions: big.Rat syntax); the model reports such inputs as outside its grammar and they are not compared',
                   'the address theorem exhibits a collision of the 6-byte checksum as its alternative (a 48-bit truncation of BLAKE2b cannot be collision-free in the absolute sense)',
-                  'policy string/JSON forms, specifier quoting, JSON of transactions, blocks, elements, states and updates are decided by the Go-side round-trip oracle only; known finding F6 (a legacy unlock-condition key whose algorithm specifier contains delimiter characters prints a string the parser refuses) is reported as KNOWN-FINDING'],
-  'level_text': 'Proved: hex identifiers: the rendering parses back, and whatever is accepted for a k-byte identifier has exactly 2k characters and is the rendering of the value returned up to the case of hex letters (so wrong length, prefix or alphabet is rejected, never accepted as another value); addresses: round trip, every accepted string is the canonical rendering of the address returned (up to case), and replacing any single character of an address string is rejected, or returns the same address, or exhibits two addresses with equal checksums; currencies: for every value below 2^128 both String() (unit suffix, trimmed fraction) and ExactString() parse back to exactly that value. The implementation is tied by recomputing renderings, verdicts and parsed values. Partial: JSON and policy text forms are oracle-only.',
+                  'policy JSON forms, specifier quoting (strconv.Quote), JSON of transactions, blocks, elements, states and updates are decided by the Go-side round-trip oracle only; known finding F6 (a legacy unlock-condition key whose algorithm specifier contains delimiter characters prints a string the parser refuses) is reported as KNOWN-FINDING'],
+  'level_text': 'Proved: hex identifiers: the rendering parses back, and whatever is accepted for a k-byte identifier has exactly 2k characters and is the rendering of the value returned up to the case of hex letters (so wrong length, prefix or alphabet is rejected, never accepted as another value); addresses: round trip, every accepted string is the canonical rendering of the address returned (up to case), and replacing any single character of an address string is rejected, or returns the same address, or exhibits two addresses with equal checksums; currencies: for every value below 2^128 both String() (unit suffix, trimmed fraction) and ExactString() parse back to exactly that value. The implementation is tied by recomputing renderings, verdicts and parsed values. policies: for every well-formed policy of any nesting and width whose key algorithm specifiers print unquoted, ParseSpendPolicy(String()) is that policy (parser transcribed with its whitespace trimming, sticky errors, trailing-comma tolerance and integer widths; tied by re-parsing ~5000 mutated policy strings per run). Partial: JSON forms and quoted specifiers are oracle-only.',
 }
 
 NOT_YET = {}
